@@ -136,8 +136,20 @@ func goStructure(c *Check, v *valTerms, name string) string {
 	if len(edgeTargets(pg, add)) == 0 && len(edgeTargets(pg, bulk)) > 0 && strings.HasSuffix(v.L, "[_:(len("+v.chain+") - 1)]") {
 		c.mustPass(pg, rule+".1", name+": Add(1) before go", "the loop is entered only after wg.Add(number of iterations)", edgeTargets(pg, RangeNext(v.L)), bulk)
 		c.noPathFrom(pg, rule+".1", name+": Add(n) happens once", "wg.Add(n) is not repeated once the loop has started", RangeNext(v.L), edgeSources(pg, bulk), nil)
-		c.perIteration(pg, rule+".1", name+": every Add(1) is followed by its go", "every iteration starts its goroutine (the counter was raised for each of them; otherwise Wait would block forever)", v.L, isGo)
+		// ... or, having nothing to wait for, gives its unit back itself: one direct wg.Done() by the spawner
+		direct := LP{Desc: "spawner calls wg.Done() itself", F: func(l Label) bool {
+			return l.Kind == "call" && l.Key == "(*sync.WaitGroup).Done("+wgKey+")" && l.Node != nil && l.Node.Inst != nil && l.Node.Inst.Name != "lit" && l.Node.Kind != NDefer
+		}}
+		c.perIteration(pg, rule+".1", name+": every Add(1) is followed by its go", "every iteration starts its goroutine or gives its unit of the counter back (the counter was raised for each of them; otherwise Wait would block forever)", v.L, AnyOf(isGo, direct))
 		c.noPathFrom(pg, rule+".1", name+": one goroutine per iteration", "at most one goroutine is started per iteration (the panic channel is sized for that)", isGo, edgeSources(pg, isGo), ptr(RangeNext(v.L)))
+		if len(edgeSources(pg, direct)) > 0 {
+			nextIter := ptr(AnyOf(RangeNext(v.L), RangeDone(v.L)))
+			c.noPathFrom(pg, rule+".1", name+": one unit per iteration (go, then no direct Done)", "an iteration that started a goroutine does not also call wg.Done() itself (the counter would drop below the number of running checks and Wait return early)", isGo, edgeSources(pg, direct), nextIter)
+			c.noPathFrom(pg, rule+".1", name+": one unit per iteration (direct Done, then no go)", "an iteration that called wg.Done() itself starts no goroutine", direct, edgeSources(pg, isGo), nextIter)
+			c.noPathFrom(pg, rule+".1", name+": one unit per iteration (one direct Done)", "an iteration calls wg.Done() itself at most once", direct, edgeSources(pg, direct), nextIter)
+			c.mustPass(pg, rule+".1", name+": direct Done only inside the loop (not before it)", "the spawner's own wg.Done()", edgeSources(pg, direct), RangeNext(v.L))
+			c.noPathFrom(pg, rule+".1", name+": direct Done only inside the loop (not after it)", "once the loop is over the spawner does not call wg.Done() itself", RangeDone(v.L), edgeSources(pg, direct), nil)
+		}
 		add = bulk
 	} else {
 		c.within(pg, rule+".1", name+": Add(1) before go", "a goroutine is started only after wg.Add(1) in the same iteration", v.L, add, isGo)
@@ -167,6 +179,11 @@ func goStructure(c *Check, v *valTerms, name string) string {
 	exits := append(append([]*PState{}, pg.Returns()...), pg.Panics()...)
 	c.noPathFrom(pg, rule+".1", name+": no exit between go and Wait", "once a goroutine was started the function leaves only after wg.Wait()", isGo, exits, ptr(wait))
 	c.noPathFrom(pg, rule+".1", name+": nothing started after Wait", "no goroutine is started after wg.Wait()", wait, edgeSources(pg, isGo), nil)
+	// which certificates are checked is fixed by the chain, not by timing: the launch loop is left
+	// only by exhaustion (a break on ctx.Err() would make the set of filled slots depend on when the
+	// cancellation arrives relative to the spawner)
+	c.mustPass(pg, rule+".1", name+": every check is started whatever the timing", "the join (wg.Wait)", edgeSources(pg, wait), RangeDone(v.L))
+	c.onlyAfterExhaustion(pg, rule+".1", name+": launch loop is not left early", "the join (wg.Wait)", v.L, edgeSources(pg, wait))
 	// .2 panic forwarding
 	var chObj types.Object
 	class := ""
@@ -319,7 +336,12 @@ func goStructure(c *Check, v *valTerms, name string) string {
 				good = isRangeKey(pg.G.Root.Decl, gn.Info, id)
 			}
 		}
-		c.add(rule+".3", name+": goroutine index is the range key", "the goroutine literal is invoked with the loop's range key as its index argument", good, c.P.pos(gn.Pos))
+		if st != nil && len(st.Call.Args) == 0 && len(badW) == 0 && nW > 0 && c.P.goAtLeast(1, 22) {
+			// no index argument: the goroutine uses the loop's own variables, which are per-iteration
+			// since go 1.22 (the stores were already shown to hit results[range key])
+			good = true
+		}
+		c.add(rule+".3", name+": goroutine index is the range key", "the goroutine literal is invoked with the loop's range key as its index argument (or, from go 1.22 on, captures the per-iteration loop variable)", good, c.P.pos(gn.Pos))
 	}
 	// spawner stores between first go and Wait: only own-key slot or root slot
 	return class
@@ -428,6 +450,11 @@ func checkC17(c *Check) {
 					// statement and only ever assigned function literals (its body is then analysed as
 					// part of the goroutine)
 					if perIterationClosure(fs, info, g, v) {
+						return true
+					}
+					// a per-call strategy closure: the parameter of the local spawning helper that
+					// holds the go statement, bound to a fresh function literal at every call
+					if litParamArgs(fs.Decl.Body, info, v) != nil {
 						return true
 					}
 					bad = append(bad, c.P.pos(call.Pos())+": call of captured function value "+id.Name)
@@ -598,6 +625,9 @@ func isResponseCallee(c *Check, name string) bool {
 func litOfInstance(g *Graph, in *Instance) *ast.FuncLit {
 	if in == nil || in.Name != "lit" {
 		return nil
+	}
+	if in.Lit != nil {
+		return in.Lit
 	}
 	var best *ast.FuncLit
 	for _, li := range g.Lits {
